@@ -44,6 +44,7 @@ type Outcome struct {
 	Model   map[string]string `json:"model,omitempty"`
 	Path    int               `json:"path"`
 	Harness string            `json:"harness"`
+	Nondet  bool              `json:"nondet,omitempty"` // the path depends on engine-internal choices (select, scheduling)
 }
 
 type HarnessResult struct {
@@ -289,7 +290,7 @@ func (in *Interp) addOutcome(kind, id, msg string, model map[string]string) {
 		return
 	}
 	in.perID[mk] = 1
-	in.res.Outcomes = append(in.res.Outcomes, &Outcome{Kind: kind, ID: id, Msg: msg, Known: in.knownTag, Model: model, Path: in.res.Paths, Harness: in.res.Harness})
+	in.res.Outcomes = append(in.res.Outcomes, &Outcome{Kind: kind, ID: id, Msg: msg, Known: in.knownTag, Model: model, Path: in.res.Paths, Harness: in.res.Harness, Nondet: in.intNondet > 0 || len(in.gs) > 1})
 }
 
 // assertHolds checks that cond holds on this path; otherwise records a violation with a model.
